@@ -35,6 +35,112 @@ class _Complement(ast.NodeTransformer):
                 return r
         return node
 
+    # ---- comprehensions: one bound variable per generator, components by subscript;
+    #      dict(<pairs>) is a dict comprehension; list(sorted(x)) is sorted(x)
+    def _comp(self, node):
+        self.generic_visit(node)
+        depth = getattr(self, "_cdepth", 0)
+        table = {}
+        for gi, g in enumerate(node.generators):
+            var = f"_c{depth + gi}"
+
+            def bindall(t, expr):
+                if isinstance(t, ast.Name):
+                    table[t.id] = expr
+                elif isinstance(t, (ast.Tuple, ast.List)):
+                    for k, e in enumerate(t.elts):
+                        bindall(e, ast.Subscript(value=expr, slice=ast.Constant(k), ctx=ast.Load()))
+
+            bindall(g.target, ast.Name(id=var, ctx=ast.Load()))
+            g.target = ast.Name(id=var, ctx=ast.Store())
+
+        from engine.util import clone_ast
+
+        class R(ast.NodeTransformer):
+            def visit_Name(s_, n):
+                if isinstance(n.ctx, ast.Load) and n.id in table:
+                    return clone_ast(table[n.id])
+                return n
+
+        for gi, g in enumerate(node.generators):
+            if gi > 0:
+                g.iter = R().visit(g.iter)
+            g.ifs = [R().visit(x) for x in g.ifs]
+        if isinstance(node, ast.DictComp):
+            node.key = R().visit(node.key)
+            node.value = R().visit(node.value)
+        else:
+            node.elt = R().visit(node.elt)
+        return node
+
+    def visit_ListComp(self, node):
+        return self._nested(node)
+
+    def visit_SetComp(self, node):
+        return self._nested(node)
+
+    def visit_GeneratorExp(self, node):
+        return self._nested(node)
+
+    def visit_DictComp(self, node):
+        return self._nested(node)
+
+    def _nested(self, node):
+        d = getattr(self, "_cdepth", 0)
+        self._cdepth = d + len(node.generators)
+        try:
+            # inner comprehensions get higher numbers
+            for g in node.generators:
+                pass
+            r = self._comp_outer(node, d)
+        finally:
+            self._cdepth = d
+        return r
+
+    def _comp_outer(self, node, d):
+        saved = getattr(self, "_cdepth", 0)
+        # visit children with the increased depth, then rewrite this level with depth d
+        self.generic_visit(node)
+        self._cdepth = d
+        try:
+            # generic_visit already done: rewrite only
+            return self._rewrite_level(node, d)
+        finally:
+            self._cdepth = saved
+
+    def _rewrite_level(self, node, depth):
+        table = {}
+        from engine.util import clone_ast
+
+        def bindall(t, expr):
+            if isinstance(t, ast.Name):
+                table[t.id] = expr
+            elif isinstance(t, (ast.Tuple, ast.List)):
+                for k, e in enumerate(t.elts):
+                    bindall(e, ast.Subscript(value=expr, slice=ast.Constant(k), ctx=ast.Load()))
+
+        for gi, g in enumerate(node.generators):
+            var = f"_c{depth + gi}"
+            bindall(g.target, ast.Name(id=var, ctx=ast.Load()))
+            g.target = ast.Name(id=var, ctx=ast.Store())
+
+        class R(ast.NodeTransformer):
+            def visit_Name(s_, n):
+                if isinstance(n.ctx, ast.Load) and n.id in table:
+                    return clone_ast(table[n.id])
+                return n
+
+        for gi, g in enumerate(node.generators):
+            if gi > 0:
+                g.iter = R().visit(g.iter)
+            g.ifs = [R().visit(x) for x in g.ifs]
+        if isinstance(node, ast.DictComp):
+            node.key = R().visit(node.key)
+            node.value = R().visit(node.value)
+        else:
+            node.elt = R().visit(node.elt)
+        return node
+
     # ---- string formatting: "%d" % x, "{}".format(x), f"{x}" have one form (JoinedStr)
     def visit_BinOp(self, node):
         self.generic_visit(node)
@@ -59,6 +165,11 @@ class _Complement(ast.NodeTransformer):
 
     def visit_Call(self, node):
         self.generic_visit(node)
+        if isinstance(node.func, ast.Name) and node.func.id == "dict" and len(node.args) == 1 and not node.keywords and isinstance(node.args[0], (ast.GeneratorExp, ast.ListComp)) and isinstance(node.args[0].elt, ast.Tuple) and len(node.args[0].elt.elts) == 2:
+            c = node.args[0]
+            return ast.DictComp(key=c.elt.elts[0], value=c.elt.elts[1], generators=c.generators)
+        if isinstance(node.func, ast.Name) and node.func.id == "list" and len(node.args) == 1 and not node.keywords and isinstance(node.args[0], ast.Call) and isinstance(node.args[0].func, ast.Name) and node.args[0].func.id == "sorted":
+            return node.args[0]
         if isinstance(node.func, ast.Attribute) and node.func.attr == "format" and isinstance(node.func.value, ast.Constant) and isinstance(node.func.value.value, str):
             r = _format_to_joined(node.func.value.value, node.args, node.keywords)
             if r is not None:
@@ -271,7 +382,9 @@ def xtext(repo, e: ast.AST, fi: FunctionInfo, at: ast.AST) -> str:
 
 def ctext(src: str) -> str:
     """canonical text of a source fragment (for expected forms)"""
-    return ast.unparse(norm.canon(ast.parse(src, mode="eval").body, rename=False))
+    x = complement_norm(ast.parse(src, mode="eval").body)
+    ast.fix_missing_locations(x)
+    return ast.unparse(norm.canon(x, rename=False))
 
 
 def stmt_of(node: ast.AST) -> ast.AST:
